@@ -37,6 +37,7 @@ def main(tier, seed, replay):
         tr = k.validate_profile("core", 3000)
         k.validate_profile("rates", 2000)
         k.validate_profile("split", 1500)
+        k.validate_profile("timeout", 1000)
         k.validate_profile("vis_black", 1500)
         k.validate_profile("vis_white", 1500)
         k.validate_profile("rel", 2500, monitors_only=True)
